@@ -325,6 +325,9 @@ pub mod router;
 pub mod socket;
 pub mod timer;
 pub mod tls;
+/// Verification hooks, compiled only with `--cfg sozu_verif`.
+#[cfg(sozu_verif)]
+pub mod verif;
 
 /// Linux zero-copy TCP forwarder. Used by `protocol::pipe::Pipe` when
 /// the listener is `Protocol::TCP` and the `splice` feature is enabled.
